@@ -197,3 +197,5 @@ int fiber_sleep(uint32_t seconds, uint32_t useconds) {
 void fiber_fd_closed(int fd) {
   // NOP
 }
+
+int fiber_fd_close(int fd, int (*do_close)(int)) { return do_close(fd); }
